@@ -29,6 +29,14 @@ let handle kind a =
       let cap = nat_of_int (int_of_string a.(2)) in
       let (l, st') = run_rxb cap (mk a.(0) a.(1)) (parse_sizes a.(3)) in
       Some (fmt_rx (hexlen a.(0)) (l, int_of_nat (b_left st')))
+  | "bxe" ->
+      (* the BGZF reader as the short-reading source: one Deliver per block; by the theorem the result
+         is that of any delivery of the payload *)
+      let script = if a.(1) = "_" then [] else
+        List.map (fun t -> Deliver (nat_of_int (int_of_string t))) (split_on ',' a.(1)) in
+      let (l, _) = run_rx { s_data = bytes_of_hex a.(0); s_script = script } (parse_sizes a.(2)) in
+      Some (String.concat ";" (List.map (fun (bs, x) ->
+        match x with XOk -> hex_of_bytes bs ^ ":Ok" | _ -> "_:" ^ xres_s x) l))
   | "roe" ->
       let (l, s') = bam_read_records (nat_of_int 8) (mk a.(0) a.(1)) in
       let r = function RecOk n -> "Ok:" ^ dec_of_n n | RecUnexpectedEof -> "Err:UnexpectedEof" | RecNoFuel -> "NoFuel" in
